@@ -206,6 +206,37 @@ def matrixStep (st : St2) (line : String) : IO St2 := do
   | ["end"] => return st
   | _ => IO.println s!"REJECT {(line.take 80).toString}"; return { st with stats := { st.stats with rejects := st.stats.rejects + 1 } }
 
+def rhsStep (st : St2) (line : String) : IO St2 := do
+  let toks := fields line
+  match toks with
+  | "LV" :: rest => levelLine st rest "rhs"
+  | "RHS" :: rest =>
+    let l := st.lvl
+    let src := parseRatsA ((kv rest "src").getD ""); let bdi := parseRatsA ((kv rest "bdin").getD ""); let bdo := parseRatsA ((kv rest "bdout").getD "")
+    let rhs := parseRatsA ((kv rest "rhs").getD "")
+    let model := Rhs.discretize l.op (Rhs.build l.op (field l.nt src) (field l.nt bdi) (field l.nt bdo))
+    let mag := Rhs.discretize l.opAbs (Rhs.build l.opAbs (fieldAbs l.nt src) (fieldAbs l.nt bdi) (fieldAbs l.nt bdo))
+    let mut bad : Option (Nat × Nat) := none
+    let mut st := st
+    for i in [0:l.nr] do
+      for j in [0:l.nt] do
+        let d := Hex.rabs (rhs.getD (i * l.nt + j) 0 - model i j)
+        if d > Hex.twoPowNeg 44 * (mag i j).v ∧ bad.isNone then bad := some (i, j)
+        -- C02 ingredient on the implementation: Dirichlet rows carry the boundary data exactly
+        if isDirichlet l i then
+          let want := if i == 0 then bdi.getD (i * l.nt + j) 0 else bdo.getD (i * l.nt + j) 0
+          if rhs.getD (i * l.nt + j) 0 != want then
+            IO.println s!"ORACLE C02 right-hand side at Dirichlet node ({i},{j}) of level {(kv rest "lvl").getD ""} is not the boundary datum"
+            st := { st with oracleFails := st.oracleFails + 1 }
+    let stats ← check st.stats bad.isNone fun _ =>
+      let q := bad.getD (0, 0); s!"rhs of level {(kv rest "lvl").getD ""} (cachegeo={(kv rest "cachegeo").getD ""}) nr={l.nr} nt={l.nt} bc={l.bc}: node ({q.1},{q.2}) differs from source x load weight"
+    return { st with stats := stats, runs := st.runs + 1 }
+  | "seed" :: _ => return st
+  | ["end"] => return st
+  | "Switching" :: _ => return st
+  | [] => return st
+  | _ => IO.println s!"REJECT {(line.take 80).toString}"; return { st with stats := { st.stats with rejects := st.stats.rejects + 1 } }
+
 def finish2 (kind : String) (st : St2) : IO UInt32 := do
   let s := st.stats
   IO.println s!"SUMMARY kind={kind} cases={s.cases} checks={s.checks} diffs={s.diffs} rejects={s.rejects} runs={st.runs} matrices={st.matrices} exact_ldlt_checks={st.pdChecked} oracle_fails={st.oracleFails} worst_defect_over_S_in_units_of_2^-53={ratToSci st.worst}"
@@ -214,6 +245,7 @@ def finish2 (kind : String) (st : St2) : IO UInt32 := do
 
 def smoothMain : IO UInt32 := do finish2 "smooth" (← forLines (← IO.getStdin) ({} : St2) smoothStep)
 def directMain : IO UInt32 := do finish2 "direct" (← forLines (← IO.getStdin) ({} : St2) directStep)
+def rhsMain : IO UInt32 := do finish2 "rhs" (← forLines (← IO.getStdin) ({} : St2) rhsStep)
 def matrixMain : IO UInt32 := do finish2 "matrix" (← forLines (← IO.getStdin) ({} : St2) matrixStep)
 
 end OpsDrv
